@@ -1,5 +1,5 @@
 #!/venv/bin/python
-"""usage: import_redteam.py <red_out dir> <confirm log>  -- copies the white-box round into /verif/redteam/<id>/ and records
+"""usage: import_redteam.py <red_out dir> <confirm log> [target dir under /verif, default redteam]  -- copies the white-box round into /verif/redteam/<id>/ and records
 what the current checker says about each item (the checker is run here, on scratch copies of /repo + patch).
 
 <confirm log>: lines `<id> clean=<rc> changed=<rc> suite=[...]` written by the confirmation script (demo on a clean
@@ -36,7 +36,7 @@ def main() -> int:
             vs.append({"id": d.name, "kind": "benign", "patch": str(d / "patch.diff")})
     with mp.Pool(16) as pool:
         res = pool.map(selftest.run_variant, [(v, "/repo") for v in vs], chunksize=1)
-    out = VERIF / "redteam"
+    out = VERIF / (sys.argv[3] if len(sys.argv) > 3 else "redteam")
     out.mkdir(exist_ok=True)
     n = 0
     for d, r in zip(items, res):
